@@ -249,6 +249,25 @@ def transitive_local_imports(mod, seen=None):
     return seen
 
 
+def no_correspondence_marks(props_modules):
+    """`-- no correspondence: <names>: <reason>` lines of the local Lean modules in the import closure of the given modules
+    -> ['<module>: <names>: <reason>', …]"""
+    mods = []
+    for m in props_modules:
+        transitive_local_imports(m, mods)
+    out = []
+    for m in mods:
+        try:
+            with open(module_files(m), encoding='utf-8') as f:
+                for line in f:
+                    mm = re.search(r'--\s*no correspondence:\s*(.+?)\s*(-/)?\s*$', line)
+                    if mm:
+                        out.append('%s: %s' % (m, mm.group(1)))
+        except OSError:
+            pass
+    return out
+
+
 DRIVER_EXE = os.path.join(LEAN, '.lake', 'build', 'bin', 'rtvdriver')
 
 
@@ -267,7 +286,21 @@ def driver(lines, timeout=3000):
     if p.returncode != 0 or len(out) != len(lines):
         raise InfraError('driver failed rc=%s answered %d of %d lines: %s' % (
             p.returncode, len(out), len(lines), p.stderr[-1500:]))
+    # a malformed numeric field (Drv/Proto.lean parseNat / parseInt) or another panic is answered `err:BadArg` / `err:Panic`
+    # (never a value computed from a silently defaulted 0): counted for the evidence (`driver_bad_arguments`)
+    for l, o in zip(lines, out):
+        if o in ('err:BadArg', 'err:Panic'):
+            op = l.split('\t', 1)[0]
+            DRIVER_BAD['count'] += 1
+            DRIVER_BAD['by_operation'][o + ' ' + op] = DRIVER_BAD['by_operation'].get(o + ' ' + op, 0) + 1
+            if len(DRIVER_BAD['examples']) < 8:
+                DRIVER_BAD['examples'].append(l[:300])
+    if p.stderr and DRIVER_BAD['count'] and len(DRIVER_BAD['messages']) < 8:
+        DRIVER_BAD['messages'].extend(p.stderr.splitlines()[:8 - len(DRIVER_BAD['messages'])])
     return out
+
+
+DRIVER_BAD = {'count': 0, 'by_operation': {}, 'examples': [], 'messages': []}
 
 
 # ---------------------------------------------------------------- findings, replay, evidence
@@ -279,6 +312,7 @@ def load_known():
         return {'findings': [], 'fixed': []}
 
 
+ERR_OTHER = {}     # exception type -> count of the exceptions a check canonicalised to `err:Other[:Type]` (main process)
 REQUIRED = os.path.join(VERIF, 'harness', 'required')
 
 
